@@ -9,7 +9,9 @@ ReactionRate, DiffusionRateDifference, Compute_dxdt, Apply_dxdt).
 What is proved here, for ALL networks / spaces / states (no bounds):
 * `euler_dxdt_eq_rate_graph`, `euler_step_graph` : on every graph (parallel edges and self-loops included) the Euler
   derivative of a non-chemostated entry IS `rate`, and one step is `x + dt·rate x`;
-* `euler_dxdt_eq_rate_grid`, `euler_step_grid` : the same on every grid, under the named geometry hypothesis
+* `euler_dxdt_eq_rate_grid_all`, `euler_step_grid_all` : the same on EVERY valid grid, unconditionally (round 2: the slot list
+  of `GetNeighborIndex` is proved equal to `Spec.gridNbrs` in Proofs/GridRate.lean, the involution in Proofs/Grid.lean);
+* `euler_dxdt_eq_rate_grid`, `euler_step_grid` : the conditional forms, kept: the same on every grid, under the named geometry hypothesis
   `EngGridOKAt g i` (the engine's neighbour table lists the Spec's six-neighbourhood and is involutive); the involution
   is discharged for every valid grid by `nbr_involutive` (Proofs/Grid.lean) in `euler_dxdt_eq_rate_grid_valid`, which
   leaves ONE hypothesis: the six slots of `GetNeighborIndex` list `Spec.gridNbrs` (same order).  It is decided by kernel
@@ -30,6 +32,7 @@ the exception-threading folds), hence `three_agree` as a single theorem; float r
 import Strengths.Proofs.Kinetics
 import Strengths.Proofs.Units
 import Strengths.Proofs.Grid
+import Strengths.Proofs.GridRate
 
 namespace Strengths.C01
 open Strengths Strengths.Gen Strengths.Spec
@@ -105,6 +108,23 @@ theorem euler_dxdt_eq_rate_grid_valid (P : Phys) (nEnv : Nat) (g : GridShape) (h
     eulerDxdt (engOfPhysGrid P nEnv g h chem) x i s = rate P x.get s i :=
   euler_dxdt_eq_rate_grid P nEnv g h chem x i s hh hvol hedge hfaces
     ⟨hnb, fun _ _ hn hget => (nbr_involutive hv hi hn hget).1⟩ hc
+
+/-- **grids, unconditionally**: for every valid grid (all `w, h, d ≥ 1`, all 8 boundary settings, periodic axes of length 1
+and 2 included), every cell, every network and state, `Compute_dxdt` of a free entry IS the rate law.  The geometry
+hypotheses are discharged by `engine_slots_are_spec_nbrs` (Proofs/GridRate.lean) and `nbr_involutive` (Proofs/Grid.lean). -/
+theorem euler_dxdt_eq_rate_grid_all (P : Phys) (nEnv : Nat) (g : GridShape) (h : Rat) (chem : Nat → Nat → Bool) (x : State)
+    (i s : Nat) (hv : g.valid = true) (hi : i < g.size) (hh : h ≠ 0) (hvol : ∀ j, P.vol j = h ^ 3) (hedge : ∀ j, P.edge j = h)
+    (hfaces : P.faces i = gridFaces g.w g.h g.d g.px g.py g.pz h i) (hc : chem i s = false) :
+    eulerDxdt (engOfPhysGrid P nEnv g h chem) x i s = rate P x.get s i :=
+  euler_dxdt_eq_rate_grid_valid P nEnv g h chem x i s hv hi hh hvol hedge hfaces (engine_slots_are_spec_nbrs hv hi) hc
+
+/-- one Euler step on any valid grid: `x₁ = x₀ + dt · rate x₀` on non-chemostated entries -/
+theorem euler_step_grid_all (P : Phys) (nEnv : Nat) (g : GridShape) (h : Rat) (chem : Nat → Nat → Bool) (x : State) (dt : Rat)
+    (i s : Nat) (hv : g.valid = true) (hi : i < g.size) (hh : h ≠ 0) (hvol : ∀ j, P.vol j = h ^ 3) (hedge : ∀ j, P.edge j = h)
+    (hfaces : P.faces i = gridFaces g.w g.h g.d g.px g.py g.pz h i) (hc : chem i s = false) :
+    (eulerStep (engOfPhysGrid P nEnv g h chem) dt x) i s = x i s + dt * rate P x.get s i :=
+  euler_step_grid P nEnv g h chem x dt i s hh hvol hedge hfaces
+    ⟨engine_slots_are_spec_nbrs hv hi, fun _ _ hn hget => (nbr_involutive hv hi hn hget).1⟩ hc
 
 /-- the geometry hypothesis is decidable on a concrete grid; instances by kernel evaluation (periodic axes of length 1, 2
 and 3, mixed boundary settings) — non-vacuity of the grid theorems -/
